@@ -285,6 +285,9 @@ def step (ds : DState) (line : String) : DState × String :=
       else if subj = "src" then
         let (st, res, up, sts) := srcStep ds.stack rest env
         fin st (res, up, sts)
+      else if subj = "arena" then
+        let (st, res, up, sts) := arenaStep ds.stack rest env
+        fin st (res, up, sts)
       else if subj = "pool" then
         let (st, res, up, sts) := poolStep ds.pool rest env
         ({ ds with pool := st }, mkLine (secs.getD 0 "") (secs.getD 1 "") res up sts)
